@@ -330,7 +330,7 @@ class DirectCalendar(IWorkCalendar):
 
     def set_units(self, units: Dict[datetime, float]):
         DirectCalendar.__check_units(units)
-        self.__units = self.__units | units
+        self.__units = self.__units | {_day_start(k): v for k, v in units.items()}
 
     @property
     def dates(self):
